@@ -670,14 +670,18 @@ Section One.
                  (combine r e))%bool
     | _, _ => false
     end.
+  (* duplicate view names make the by-name fallback ambiguous: when such a case needs the fallback at all, only
+     the pairwise verdicts are compared (counted in slot 6) *)
+  Fixpoint has_dup (l : list string) : bool := match l with [] => false | x :: r => (mem x r || has_dup r)%bool end.
+  Definition ambiguous : bool :=
+    (has_dup (map v_name (g_views cfg)) && existsb (fun p => negb (Nat.eqb (reason_ix (fst p)) 0)) pairs)%bool.
 End One.
-(* duplicate view names make the positional fallback ambiguous: such cases are checked pairwise only when the
-   model needs no fallback for them *)
-Definition check (c : tcase) : bool * list nat := ((pair_ok c && run_ok c)%bool, counts c).
+Definition check (c : tcase) : bool * list nat :=
+  ((pair_ok c && (ambiguous c || run_ok c))%bool, (counts c ++ [if ambiguous c then 1 else 0])%list%nat).
 Fixpoint failing (i : nat) (l : list tcase) : list nat :=
   match l with [] => [] | c :: r => if fst (check c) then failing (S i) r else i :: failing (S i) r end.
 Definition addl (a b : list nat) := map (fun p => (fst p + snd p)%nat) (combine a b).
-Definition totals (l : list tcase) : list nat := fold_left (fun a c => addl a (snd (check c))) l [0;0;0;0;0;0]%nat.
+Definition totals (l : list tcase) : list nat := fold_left (fun a c => addl a (snd (check c))) l [0;0;0;0;0;0;0]%nat.
 '''
 
 
@@ -789,7 +793,7 @@ def model_check(cases, mains, name='C10', chunk=60, parallel=4):
             idx.append(i)
         except (Unsupported, SyntaxError):
             skipped += 1
-    bad, totals = [], [0] * 6
+    bad, totals = [], [0] * 7
     import concurrent.futures
 
     def one(off):
@@ -969,7 +973,7 @@ def main(tier):
                                        'broken': broken, 'shrunk_from': size(c), 'size': size(small)}, signature=key[1])
         unexplained += 1 if isnew else 0
 
-    model_idx, totals, bad = [], [0] * 6, []
+    model_idx, totals, bad = [], [0] * 7, []
     if not tfails and res['ok']:
         bad, model_idx, err, totals = model_check(cases, [r[0] for r in per_case])
         if bad is None:
@@ -994,7 +998,7 @@ def main(tier):
         hist_merch[len(c['merchants'])] = hist_merch.get(len(c['merchants']), 0) + 1
     modelled = totals[0]
     run.cov.update({
-        'evaluations': len(jobs) + sum(totals),
+        'evaluations': len(jobs) + sum(totals[:6]),
         'distinct_nontrivial': len(nontrivial),
         'rule': 'views files (1-8 views; global and view-local variables incl. redefinitions, shadowed primitives, mixed-case names; '
                 'all primitives, aggregates over payments and by(month|year|week|day), period(), max_val/min_val, arithmetic, chains, '
@@ -1005,7 +1009,8 @@ def main(tier):
                     {'views_file': views_text(cases[len(cases) // 2])}],
         'impl_jobs': len(jobs), 'cases': len(cases), 'view_merchant_pairs': pair_total,
         'model_vs_impl_cases_in_coq': len(model_idx), 'modelled_pairs': modelled,
-        'oracle_pairs_by_reason': dict(zip(['near-threshold', 'sqrt-arithmetic', 'round', 'modulo', 'type-outside-fragment'], totals[1:])),
+        'oracle_pairs_by_reason': dict(zip(['near-threshold', 'sqrt-arithmetic', 'round', 'modulo', 'type-outside-fragment'], totals[1:6])),
+        'duplicate_name_cases_compared_pairwise_only': totals[6],
         'discarded_near_threshold': totals[1],
         'law_failures_seen': law_hist, 'views_per_case': hist_views, 'merchants_per_case': hist_merch,
         'translation_failures': tfails})
